@@ -17,7 +17,7 @@ import (
 const chkC07 = "c07-fixedpoint-custom"
 
 func runC07(t vlib.TB, c *Case) {
-	w := newWorld(c, c.Pruning)
+	w := newWorld(chkC07, c, c.Pruning)
 	r := w.initialize()
 	failPanic(t, chkC07, c, "initialize", r)
 	if r.err != nil {
@@ -35,7 +35,7 @@ func runC07(t vlib.TB, c *Case) {
 		calls, re := w.ensureToFixpoint(s, 3)
 		failPanic(t, chkC07, c, "ensureroutes", re)
 		if re.err != nil {
-			vlib.Class(chkC07, "step-error")
+			vlib.Class(chkC07, "step-error", errClass(re.err))
 			continue
 		}
 		if !re.done {
@@ -49,6 +49,10 @@ func runC07(t vlib.TB, c *Case) {
 		before := w.cli.writes
 		again := w.ensure(s)
 		failPanic(t, chkC07, c, "ensureroutes", again)
+		if isLuaDeadline(again.err) {
+			vlib.Class(chkC07, "step-error", errClass(again.err))
+			continue
+		}
 		if again.err != nil {
 			vlib.Fail(t, chkC07, "custom-fixpoint-error-after-done", c, "step %d: EnsureRoutes returned true, the next identical call failed: %v", i, again.err)
 		}
